@@ -515,6 +515,27 @@ SPECS["C13"] = dict(
         "Woodpile.Props.C13.ra_per_thread_monotone",
         "Woodpile.Props.C13.ra_published_monotone",
         "Woodpile.Props.C13.ra_stale_update_ignored",
+        "Woodpile.Props.C13.sc_fresh_update_accepted",
+        "Woodpile.Props.C13.sc_accepted_update_completes",
+        "Woodpile.Props.C13.sc_update_completed",
+        "Woodpile.Props.C13.sc_update_ignored_covered",
+        "Woodpile.Props.C13.sc_bookkeeping_exact",
+        "Woodpile.Props.C13.sc_calls_sound",
+        "Woodpile.Props.C13.sc_real_time_order",
+        "Woodpile.Props.C13.sc_completed_update_visible",
+        "Woodpile.Props.C13.ra_fresh_update_accepted",
+        "Woodpile.Props.C13.ra_accepted_update_completes",
+        "Woodpile.Props.C13.ra_update_completed",
+        "Woodpile.Props.C13.ra_update_ignored_covered",
+        "Woodpile.Props.C13.ra_view_monotone",
+        "Woodpile.Props.C13.ra_view_monotone_run",
+        "Woodpile.Props.C13.ra_sync_transfers_view",
+        "Woodpile.Props.C13.ra_bookkeeping_exact",
+        "Woodpile.Props.C13.ra_calls_sound",
+        "Woodpile.Props.C13.ra_return_view_kept",
+        "Woodpile.Props.C13.ra_program_order",
+        "Woodpile.Props.C13.ra_update_then_snapshot",
+        "Woodpile.Props.C13.ra_own_update_visible",
     ],
     families=[dict(name="abt", quick=1500, thorough=60000)],
     vtags=["C13"],
@@ -547,6 +568,12 @@ SPECS["C18"] = dict(
         "Woodpile.Props.C18.ra_solo_snapshot_terminates",
         "Woodpile.Props.C18.ra_retry_only_on_publish",
         "Woodpile.Props.C18.unlocked_inherits",
+        "Woodpile.Props.C18.sc_retry_only_on_publish_during",
+        "Woodpile.Props.C18.ra_retry_only_on_publish_during",
+        "Woodpile.Props.C18.ra_solo_snapshot_terminates_uniform",
+        "Woodpile.Props.C18.ra_solo_is_run",
+        "Woodpile.Props.C18.ra_latest_admissible",
+        "Woodpile.Props.C18.unlocked_is_abt_snapshot",
     ],
     families=[dict(name="abt", quick=1500, thorough=60000)],
     vtags=["C18"],
@@ -669,6 +696,11 @@ SPECS["C19"] = dict(
         "Woodpile.Props.C19.untrusted_reports_none_and_noop",
         "Woodpile.Props.C19.returned_pairs_check",
         "Woodpile.Props.C19.no_panic",
+        "Woodpile.Props.C19.chkNat_is_chkReal",
+        "Woodpile.Props.C19.init_cells_agree",
+        "Woodpile.Props.C19.seq_update_refines",
+        "Woodpile.Props.C19.seq_snapshot_refines",
+        "Woodpile.Props.C19.try_update_differs_only_when_poisoned",
     ],
     # every case is a forked process working on real files, some wait out a refresh threshold (1-2 s):
     # few cases, spread over many shards
